@@ -209,9 +209,69 @@ def run(out, prop, tier, seed, **kw):
                                   {'kind': 'readerlookup', 'sc': sc, 'container': container, 'observed': obs})
     if prop == 'C14':
         url_dispatch(out)
+        reuse_probe(out, scratch)
     out.assumptions += ['trees are built on disk / with zipfile by the harness (levels: top, folder, folder-in-folder or archive-in-archive)',
                         'returned text is identified with an entry by (name, decoded content, time stamp)',
                         'HTTP/FTP readers are only constructed, never contacted']
+
+
+def reuse_probe(out, scratch):
+    """Readers keep no state between requests (ReaderLookup.tla: the answer is a function of the request and the tree):
+    ONE reader object is asked for several modules that live in sibling containers of the same name at nesting depth 2
+    (pa.zip/inner.zip/.., pb.zip/inner.zip/.. ; dir/pa/inner/.., dir/pb/inner/..), in both orders, and each answer is
+    compared with the answer of a fresh reader."""
+    import io
+    import zipfile
+    from pysmi.reader import FileReader, ZipReader
+    from pysmi import error
+
+    def inner(names):
+        b = io.BytesIO()
+        with zipfile.ZipFile(b, 'w') as z:
+            for n in names:
+                z.writestr(n + '.txt', 'text of %s\n' % n)
+        return b.getvalue()
+
+    def outer(member, names):
+        b = io.BytesIO()
+        with zipfile.ZipFile(b, 'w') as z:
+            z.writestr(member, inner(names))
+        return b.getvalue()
+    zp = os.path.join(scratch, 'reuse.zip')
+    with zipfile.ZipFile(zp, 'w') as z:
+        z.writestr('pa.zip', outer('inner.zip', ['FIRST-MIB']))
+        z.writestr('pb.zip', outer('inner.zip', ['SECOND-MIB']))
+        z.writestr('pc.zip', outer('sub/inner.zip', ['THIRD-MIB']))
+        z.writestr('TOP-MIB.txt', 'text of TOP-MIB\n')
+    root = os.path.join(scratch, 'reuse-dir')
+    for d, n in (('pa/inner', 'FIRST-MIB'), ('pb/inner', 'SECOND-MIB'), ('pc/sub/inner', 'THIRD-MIB'), ('', 'TOP-MIB')):
+        os.makedirs(os.path.join(root, d), exist_ok=True)
+        with open(os.path.join(root, d, n + '.txt'), 'w') as fh:
+            fh.write('text of %s\n' % n)
+
+    def ask(rd, n):
+        try:
+            info, data = rd.getData(n)
+            return data.strip() if isinstance(data, str) else data.decode().strip()
+        except error.PySmiReaderFileNotFoundError:
+            return 'NOT-FOUND'
+        except error.PySmiError as exc:
+            return 'ERROR %s' % type(exc).__name__
+    names = ['FIRST-MIB', 'SECOND-MIB', 'THIRD-MIB', 'TOP-MIB', 'ABSENT-MIB']
+    for kind, make in (('zip', lambda: ZipReader(zp)), ('dir', lambda: FileReader(root))):
+        fresh = {n: ask(make(), n) for n in names}
+        for n in names[:4]:
+            if fresh[n] != 'text of ' + n:
+                out.violation('formula=RightFile;reuse-probe-fresh', '%s reader: a fresh reader asked for %s answers %r' % (kind, n, fresh[n]),
+                              {'kind': 'readerlookup-reuse', 'container': kind, 'order': [n], 'answers': [fresh[n]]})
+        for order in (names, names[::-1], ['SECOND-MIB', 'FIRST-MIB', 'SECOND-MIB', 'THIRD-MIB', 'FIRST-MIB']):
+            rd = make()
+            got = [ask(rd, n) for n in order]
+            out.evaluations += 1
+            bad = [(n, g) for n, g in zip(order, got) if g != fresh[n]]
+            if bad:
+                out.violation('formula=RightFile;reader-reused', '%s reader asked for %s in turn: %s answered %r, a fresh reader answers %r' % (
+                    kind, order, bad[0][0], bad[0][1], fresh[bad[0][0]]), {'kind': 'readerlookup-reuse', 'container': kind, 'order': order, 'answers': got})
 
 
 def classify(sc, container, obs):
@@ -258,6 +318,9 @@ def url_dispatch(out):
 def replay(path):
     with open(path) as fh:
         rp = json.load(fh)['replay']
+    if rp.get('kind') == 'readerlookup-reuse':
+        print(json.dumps(rp, indent=1))
+        return
     if rp['kind'] == 'url':
         from pysmi.reader.url import getReadersFromUrls
         print(rp['url'], '->', [type(r).__name__ for r in getReadersFromUrls(rp['url'])], 'expected', rp['expected'])
